@@ -29,6 +29,10 @@ SPECS = [
     ("kw", {"first": "1 + A + a", "second": "0 + A + t"}, {"A"}),
     ("str", "t ~ A + A:a | A:a + b", {"A"}),
     ("str", "A ~ t + A | a:A", {"A"}),
+    # a non-treatment coding used at full rank by one part and at reduced rank by a later one (and inside one part)
+    ("str", "t ~ 0 + C(A, contr.sum) + a | C(A, contr.sum) + z", {"A", "z"}),
+    ("str", "t ~ 0 + C(A, contr.helmert) | a + C(A, contr.helmert):b", {"A"}),
+    ("kw", {"first": "0 + C(A, contr.sum) + b + C(A, contr.sum):b", "second": "C(A, contr.sum) + t"}, {"A"}),
 ]
 
 
